@@ -314,3 +314,36 @@ Proof.
   unfold finish. cbn [c_phase c_holdns c_nupd teardown app].
   rewrite (ConnProofs.done_absorbing cf pl later (mkC PDone h (S k)) eq_refl). reflexivity.
 Qed.
+
+(* ---- the connection ends in the middle of a message (C09: a TCP close ends it silently; C08: nothing that was not
+   received in full is interpreted) ---- *)
+(* a header announcing a valid length whose body has not arrived in full: the reader is still waiting *)
+Lemma read_one_incomplete l1 l0 t rest :
+  let len := l1 * 256 + l0 in
+  19 <= len <= 4096 -> 19 + blen rest < len ->
+  read_one (marker ++ l1 :: l0 :: t :: rest) = RWait.
+Proof.
+  intros len Hl Hs. unfold read_one, c_headerLength, c_maxMessageLength.
+  assert (Hb : blen (marker ++ l1 :: l0 :: t :: rest) = 19 + blen rest).
+  { rewrite blen_app, !blen_cons. change (blen marker) with 16. lia. }
+  replace (blen (marker ++ l1 :: l0 :: t :: rest) <? 19) with false by lia.
+  change (take 16 (take 19 (marker ++ l1 :: l0 :: t :: rest))) with marker. rewrite beqb_refl. cbn [negb].
+  change (drop 16 (take 19 (marker ++ l1 :: l0 :: t :: rest))) with [l1; l0; t]. unfold get16. fold len.
+  replace ((len <? 19) || (4096 <? len)) with false by lia.
+  replace (blen (marker ++ l1 :: l0 :: t :: rest) <? len) with true by lia. reflexivity.
+Qed.
+
+Lemma read_one_short s : blen s < 19 -> read_one s = RWait.
+Proof. intros H. unfold read_one, c_headerLength. replace (blen s <? 19) with true by lia. reflexivity. Qed.
+
+(* whatever complete messages precede it, an incomplete message followed by the end of the stream yields exactly
+   those messages and then a plain I/O error: no phantom message, no NOTIFICATION-carrying error *)
+Theorem eof_mid_message l ms part :
+  Forall2 good_msg l ms -> read_one part = RWait ->
+  read_stream (frames l ++ part) true = map RMsg ms ++ [RErrIO].
+Proof.
+  intros Hg Hp. unfold read_stream.
+  rewrite (feed_parse rinit (frames l ++ part) eq_refl). cbn [r_buf rinit app].
+  rewrite (parse_frames l ms part Hg). rewrite (parse_unfold part), Hp.
+  cbn [feed_eof r_stopped]. rewrite app_nil_r. reflexivity.
+Qed.
